@@ -389,7 +389,7 @@ def gen_synth(rng, n):
             files[t] = [{"imports": imports[t], "content": content}]
         ops = []
         t_now = T0 + 1000
-        kind = rng.choice(["edit", "edit", "edit", "fault", "touch", "reload", "limit", "cycle", "dangling", "raise"])
+        kind = rng.choice(["edit", "edit", "edit", "fault", "touch", "reload", "limit", "cycle", "dangling", "raise", "imports"])
         final = rng.choice(tn[1:])
         first = rng.choice(tn)
         ops.append({"op": "load", "name": rng.choice([final, first, tn[-1]]), "limit": None, "fault": None})
@@ -413,6 +413,18 @@ def gen_synth(rng, n):
                 if rng.random() < 0.4:
                     p = rng.choice(tn)
                     ops.append({"op": "load", "name": p, "limit": None, "fault": None})
+        elif kind == "imports":
+            # the `imports` of a file change between two loads and load_metadata is NOT called (known finding)
+            cands = [t for t in closure(imports, [final]) if imports[t]]
+            if cands:
+                victim = rng.choice(cands)
+                newimp = [i for i in imports[victim] if i != rng.choice(imports[victim])]
+                files[victim].append({"imports": newimp, "content": copy.deepcopy(files[victim][0]["content"])})
+                t_now += 5
+                ops[0]["name"] = final
+                ops.append({"op": "edit", "name": victim, "version": 1, "mtime": t_now})
+                if rng.random() < 0.3:
+                    ops.append({"op": "reload"})
         elif kind == "fault":
             deps = closure(imports, [final])
             tgt = rng.choice(deps)
@@ -782,8 +794,10 @@ def judge_spec(ctx, sc, run, mv, which):
         elif own != exp[1]:
             what = "own items loaded %s..., expected %s... (%d / %d items)" % (own[-3:], exp[1][-3:], len(own), len(exp[1]))
     if what is not None:
-        ctx.violation("spec:" + classify_history(sc)[8:] if which == "history" else "spec-fresh:" + json.dumps(
-            [fin["name"], fin["limit"]], ensure_ascii=False) + ("" if sc.kind == "real" else "|" + classify_history(sc)[-200:]),
+        key = STALE_IMPORTS if (which == "history" and stale_imports_class(sc)) else (
+            "spec:" + classify_history(sc)[8:] if which == "history" else "spec-fresh:" + json.dumps(
+                [fin["name"], fin["limit"]], ensure_ascii=False) + ("" if sc.kind == "real" else "|" + classify_history(sc)[-200:]))
+        ctx.violation(key,
             "load_theory(%s, limit=%s) in a %s: %s. History: %s (%s)" % (
                 fin["name"], fin["limit"], "fresh process" if which == "fresh" else "process with a history", what,
                 json.dumps(sc.ops if which == "history" else sc.ops[-1:], ensure_ascii=False)[:500], sc.note),
@@ -791,8 +805,27 @@ def judge_spec(ctx, sc, run, mv, which):
     return what
 
 
+STALE_IMPORTS = "stale-imports:imports-of-a-file-edited-without-load_metadata"
+
+
+def stale_imports_class(sc):
+    """an edit changes the `imports` of a file and no load_metadata follows before the final load"""
+    pending = False
+    cur = {n: 0 for n in sc.files}
+    for op in sc.ops:
+        if op["op"] == "edit":
+            if sc.files[op["name"]][op["version"]]["imports"] != sc.files[op["name"]][cur[op["name"]]]["imports"]:
+                pending = True
+            cur[op["name"]] = op["version"]
+        elif op["op"] == "reload":
+            pending = False
+    return pending
+
+
 def classify_history(sc):
     """Key of a violation: the class of the history when a whole class triggers the defect, else the history."""
+    if stale_imports_class(sc):
+        return STALE_IMPORTS
     return "history:" + json.dumps(sc.ops, sort_keys=True, ensure_ascii=False) + ("" if sc.kind == "real" else
                                                                                    "|lib:" + json.dumps(sc.files, sort_keys=True, ensure_ascii=False)[:400])
 
@@ -882,7 +915,10 @@ def run_scenarios(ctx, scs, src, label):
             ctx.count("final:" + map_res(h["ops"][-1]["res"]))
             if judge_spec(ctx, sc, f, views[idx], "fresh") or judge_spec(ctx, sc, h, views[idx], "history"):
                 nviol += 1
-            correspond(ctx, sc, h, f, src, out[idx] if out else None, views[idx], "%s-%d" % (label, idx))
+            if stale_imports_class(sc):
+                ctx.count("not-modelled:imports-edited")      # the model has no edit of imports
+            else:
+                correspond(ctx, sc, h, f, src, out[idx] if out else None, views[idx], "%s-%d" % (label, idx))
     if out is None:
         ctx.broken("correspondence:c12:driver", "model driver unavailable")
     return nviol
@@ -970,6 +1006,11 @@ MANIFEST = {
     "design_ref": "DESIGN.md 4/C12",
 }
 FINDINGS = [
+    {"status": "known", "key": STALE_IMPORTS,
+     "what": "after the `imports` of a theory file are edited, load_theory keeps using the imports read by load_metadata "
+             "(the file content is re-read, its imports are not) until basic.load_metadata() is called; e.g. load b; remove "
+             "the import of a from b.json; load b -> still built on a. No small safe fix: the import graph is cached per "
+             "user and checked for cycles only in load_metadata (the web app calls it when listing files)"},
     {"status": "fixed", "key": "fresh-process:load_theory(smt)", "commit": "fixes/C12-1.patch",
      "what": "in a fresh process load_theory('smt') (also 'verit') raised 'Constant of_int already exists': importing data.real "
              "inside the fresh_theory block of the importing theory ran basic.load_theory, which replaced theory.thy"},
